@@ -409,6 +409,17 @@ def goto_in_arguments():
         'codata-label-int-arg': "(label k { new { apply(x) => id(goto k (new { apply(y) => y + b })) + 1 } }).apply[i64, i64](a)",
         'codata-label-op-arg': "(label k { new { apply(x) => sub2(x, goto k (new { apply(y) => y - b })) } }).apply[i64, i64](a)",
     }
+    # a print sequence whose continuation is data- or codata-typed, used as an argument (the argument's own type decides
+    # eager vs by-name evaluation, not the type of the printed value)
+    bodies.update({
+        'print-data-arg': "sum((println_i64(a); Cons(a, Cons(b, Nil)))) + 1",
+        'print-data-ctor-field': "(Tup((print_i64(1); Cons(a, Nil)), b)).case[List[i64], i64] { Tup(l, n) => sum(l) - n }",
+        'print-data-dtor-arg': "new { apply(l) => sum(l) + b }.apply[List[i64], i64]((println_i64(5); Cons(a, Nil)))",
+        'print-codata-arg-forced': "later((println_i64(7); new { apply(y) => y * b }), a)",
+        'print-codata-arg-ignored': "ignore((println_i64(7); new { apply(y) => y * b }), a)",
+        'print-codata-arg-twice': "twice((println_i64(7); nats(a)), b)",
+        'print-enum-arg': "pick((println_i64(a); E2), a, b, 3)",
+    })
     for k, b in bodies.items():
         out.append({'name': f"goto-args/{k}", 'src': prog(b, extra_defs=later)})
     return out
